@@ -415,6 +415,31 @@ pub fn model_free(obs: &Obs, input: &str, input_chars: &[char], locs: &[Loc], te
         }
         last_end = e.me.byte;
     }
+    // a token returned by a logging action carries exactly the match the action last saw
+    // (match_loc() after its reset_match(), if it reset; otherwise match_loc() at entry)
+    {
+        let mut prev = 0usize;
+        for (i, it) in obs.items.iter().enumerate() {
+            let end_ix = obs.item_ev_end.get(i).copied().unwrap_or(obs.evs.len());
+            if let Item::Tok { start, rule, end, .. } = it {
+                if end_ix > prev {
+                    let e = &obs.evs[end_ix - 1];
+                    if e.rule == *rule {
+                        let (xs, xe) = e.post.unwrap_or((e.ms, e.me));
+                        if (*start, *end) != (xs, xe) {
+                            let d = format!(
+                                "token span {}..{} differs from the match the returning action saw ({}..{})",
+                                start.byte, end.byte, xs.byte, xe.byte
+                            );
+                            out.push(("C06", d.clone()));
+                            out.push(("C10", d));
+                        }
+                    }
+                }
+            }
+            prev = end_ix;
+        }
+    }
     let mut prev_tok_end = 0usize;
     for it in &obs.items {
         match it {
